@@ -29,6 +29,36 @@ def gen(ctx, n_per_cmd, cmds):
     return cases
 
 
+def directed_chains():
+    """fixed multi-step models: fuzzy results of real executions (and arrays derived from them) fed into commands whose new values need limiting"""
+    import numpy
+    from ..eems import Case, run_impl
+    raw = numpy.ma.array([-2.0, -1.0, -0.5, 0.0, 0.5, 1.0, 2.0, 3.0], mask=[False] * 7 + [True])
+
+    def res(case):
+        o = run_impl(case, copy_inputs=False)
+        assert o["status"] == "ok", o
+        return o["result"]
+    f1 = res(Case("CvtToFuzzy", {"TrueThreshold": 1, "FalseThreshold": -1}, [raw.copy()]))
+    f2 = res(Case("FuzzyNot", {}, [f1]))
+    f3 = res(Case("CvtToFuzzy", {"TrueThreshold": 3, "FalseThreshold": -2}, [raw.copy()]))
+    f4 = res(Case("FuzzyOr", {}, [f3]))
+    g = res(Case("CvtFromFuzzy", {"TrueThreshold": 0.5, "FalseThreshold": -0.5}, [f1]))
+    cases = []
+    for ins, w in (([f1, f2], [2, -1]), ([f2, f1], [-1, 2]), ([f1, f3, f2], [0.1, 0.2, 0.3]), ([f3, f1], [3, -2]), ([f4, f2], [1.5, -0.5]), ([f1], [-1])):
+        cases.append(Case("FuzzyWeightedUnion", {"Weights": w}, ins))
+    cases.append(Case("CvtToFuzzy", {"TrueThreshold": 0.1, "FalseThreshold": -0.1}, [g]))
+    cases.append(Case("CvtToFuzzy", {"TrueThreshold": -0.1, "FalseThreshold": 0.1}, [g]))
+    cases.append(Case("CvtToFuzzyCurve", {"RawValues": [-0.5, 0.5], "FuzzyValues": [-3, 3]}, [g]))
+    cases.append(Case("CvtToFuzzyCat", {"RawValues": [0.5, -0.5], "FuzzyValues": [5, -5], "DefaultFuzzyValue": 2}, [g]))
+    for f in (f1, f2, f3, f4):
+        cases.append(Case("FuzzyNot", {}, [f]))
+        cases.append(Case("FuzzyUnion", {}, [f, f2]))
+        cases.append(Case("FuzzyXOr", {}, [f, f1]))
+        cases.append(Case("FuzzySelectedUnion", {"TruestOrFalsest": "Truest", "NumberToConsider": 1}, [f, f2]))
+    return cases
+
+
 def after_write(ctx, count):
     """fuzzy results handed to the writers (NetCDF: several fields with different missing cells in one file; CSV) are still fuzzy afterwards:
     the stored result of a fuzzy command stays within [-1, 1] at its non-missing cells whatever consumes it"""
@@ -76,6 +106,7 @@ def run(ctx):
     eems.run_stream(ctx, model, gen(ctx, n, eems.FUZZY_PRODUCERS), "exec:fuzzy-producers", on_result=oracle(ctx))
     chain_consumers = [c for c in eems.FUZZY_PRODUCERS if c in eems.FUZZY_CONSUMERS]
     eems.run_stream(ctx, model, eems.gen_chains(ctx.rng, ctx.budget(60, 2500), chain_consumers), "exec:fuzzy-chains", on_result=oracle(ctx))
+    eems.run_stream(ctx, model, directed_chains(), "exec:fuzzy-chains-directed", on_result=oracle(ctx))
     after_write(ctx, ctx.budget(20, 600))
     if ctx.disagreements and not ctx.failures:
         # failing-input search: enlarged budget focused on the commands whose correspondence broke
